@@ -28,12 +28,19 @@ from .. import core, sbeppc, c07gen as G
 
 MODULE = 'Sbepp.Properties.C07'
 THEOREMS = [
+    'Sbepp.Properties.C07.rendering_flags',
     'Sbepp.Properties.C07.literal_sites_fit_full_false',
     'Sbepp.Properties.C07.literal_sites_fit_partial',
+    'Sbepp.Properties.C07.literal_sites_fit_checked',
     'Sbepp.Properties.C07.defaults_fit',
     'Sbepp.Properties.C07.integer_literal_value',
+    'Sbepp.Properties.C07.strip_leading_zeros_value',
+    'Sbepp.Properties.C07.float_literal_fits',
+    'Sbepp.Properties.C07.escape_literal_denotes',
+    'Sbepp.Properties.C07.fixed_literal_classes',
     'Sbepp.Properties.C07.scope_conflict_free_full_false',
     'Sbepp.Properties.C07.scope_conflict_free_partial',
+    'Sbepp.Properties.C07.fixed_scope_classes',
     'Sbepp.Properties.C07.mangled_fresh',
     'Sbepp.Properties.C07.detail_types_distinct',
     'Sbepp.Properties.C07.detail_messages_distinct',
@@ -42,7 +49,7 @@ THEOREMS = [
     'Sbepp.Properties.C07.public_paths_resolve',
     'Sbepp.Properties.C07.size_bytes_params_distinct_full_false',
     'Sbepp.Properties.C07.size_bytes_params_distinct_partial',
-    'Sbepp.Properties.C07.includes_closed_full_false',
+    'Sbepp.Properties.C07.includes_closed',
     'Sbepp.Properties.C07.includes_closed_partial',
 ]
 
@@ -472,7 +479,10 @@ def run(chk):
         if run.prepare():
             sts, feat = streams(chk)
             idx = 0
+            only = [x for x in os.environ.get('C07_STREAMS', '').split(',') if x]   # debugging aid: subset of streams
             for name, schemas, headers, cfgs in sts:
+                if only and name not in only:
+                    continue
                 run.configs = cfgs
                 cases = []
                 for s in schemas:
